@@ -35,6 +35,17 @@ def run(ctx, replay=None):
     exe = prepare(ctx, ['Properties_C16'], 'h_enc', CORE_SRCS, ['h_enc.c'])
     if exe is None:
         ctx.finish('build failed')
+    if replay:
+        il, ml, ops = replay_ops(ctx, 'enc', exe, replay)
+        bad = [o for i, o in enumerate(ops) if i >= len(il) or i >= len(ml) or il[i] != ml[i]]
+        d = json.load(open(replay)).get('replay', {})
+        if 'expected' in d and il and il[0] != d['expected']:
+            bad.append(ops[0])
+        if bad or not ops:
+            print('VIOLATION property=C16 replay=%s' % replay)
+            sys.exit(1)
+        print('replay: implementation now agrees with model and property on these ops')
+        sys.exit(0)
     xs = gen_inputs(ctx)
     ops1 = []
     for x in xs:
@@ -75,7 +86,7 @@ def run(ctx, replay=None):
             for b in x:
                 if k < len(u) and u[k] == b and (33 <= b <= 126) and chr(b) not in '%+&=?#"<>':
                     k += 1
-                elif u[k:k + 3] == b'%%%02x' % b:
+                elif u[k:k + 3].lower() == b'%%%02x' % b:
                     k += 3
                 else:
                     okform = False; break
